@@ -4026,6 +4026,10 @@ where
             let base_seed = self.heuristic_rebuild_base_seed();
             let seeds = config.resolve_seeds(base_seed);
             let (candidate, stats, used_seeds) = self.rebuild_with_heuristic(seeds)?;
+            candidate
+                .tri
+                .tds
+                .continue_generation_after(self.tri.tds.generation());
             *self = candidate;
             return Ok(DelaunayRepairOutcome {
                 stats,
@@ -4050,6 +4054,10 @@ where
                 let base_seed = self.heuristic_rebuild_base_seed();
                 let seeds = config.resolve_seeds(base_seed);
                 let (candidate, stats, used_seeds) = self.rebuild_with_heuristic(seeds)?;
+                candidate
+                    .tri
+                    .tds
+                    .continue_generation_after(self.tri.tds.generation());
                 *self = candidate;
                 Ok(DelaunayRepairOutcome {
                     stats,
